@@ -155,42 +155,143 @@ theorem sheet_kind_lookup (s : XlsSheet) (h : ∃ k, xlsKindCode k = some s.dt) 
   obtain ⟨_, hl⟩ := xlsKind_lookup k s.dt hk
   simp only [XlsSheet.kind, hl, Option.getD_some, hk]
 
-theorem step_sheet (nr : Bytes → Nat → Res Text) (pd : Bytes → Res (Option Nat × Text)) (st : XlsSt) (hb : st.biff8 = true)
+theorem readNoCch_enc (us : List Nat) (wide : Bool) (rest : Bytes) (h : ∀ u ∈ us, u < (if wide then 65536 else 256)) :
+    readUnicodeStringNoCch ((if wide then (1 : UInt8) else 0) :: (encUnits wide us ++ rest)) us.length = .ok (Biff.decodeUtf16 us) := by
+  unfold readUnicodeStringNoCch readUnicodeStringNoCchWith
+  simp only [flagHigh_flag, Bool.and_true]
+  have hb : (if wide = true then 2 * us.length else us.length) = (encUnits wide us).length := (encUnits_length wide us).symm
+  rw [hb]
+  have hlen : ¬ ((encUnits wide us ++ rest).length < (encUnits wide us).length) := by simp
+  simp only [hlen, if_false, List.take_left' rfl]
+  have := decodeTo_encUnits us wide [] h
+  rw [List.append_nil] at this
+  rw [this]
+
+theorem parseLbl_enc (pd : Bytes → Res (Option Nat × Text)) (us : List Nat) (wide : Bool) (itab : Nat) (rgce : Bytes)
+    (h1 : us.length < 256) (h2 : ∀ u ∈ us, u < (if wide then 65536 else 256)) (h3 : rgce.length < 65536)
+    (h4 : (pd rgce).isOk = true) :
+    parseLblWith readUnicodeStringNoCch pd (encodeLbl us wide itab rgce) = .ok (Biff.decodeUtf16 us, pdValue pd rgce) := by
+  have hshape : encodeLbl us wide itab rgce =
+      le16 0 ++ ([0, byte us.length] ++ (le16 rgce.length ++ (le16 0 ++ (le16 itab ++ ([0, 0, 0, 0] ++
+        ((if wide then (1 : UInt8) else 0) :: (encUnits wide us ++ rgce))))))) := by
+    simp [encodeLbl, List.append_assoc]
+  have hlen : (encodeLbl us wide itab rgce).length = 15 + (encUnits wide us).length + rgce.length := by
+    rw [hshape]; simp [le16]; omega
+  have hb3 : byteAt (encodeLbl us wide itab rgce) 3 = us.length := by
+    rw [hshape]; simp [byteAt, le16, byte_toNat]; omega
+  have hcce : Biff.u16 ((encodeLbl us wide itab rgce).drop 4) = rgce.length := by
+    rw [hshape]
+    have : (le16 0 ++ ([0, byte us.length] ++ (le16 rgce.length ++ (le16 0 ++ (le16 itab ++ ([0, 0, 0, 0] ++
+        ((if wide then (1 : UInt8) else 0) :: (encUnits wide us ++ rgce)))))))).drop 4 =
+        le16 rgce.length ++ (le16 0 ++ (le16 itab ++ ([0, 0, 0, 0] ++ ((if wide then (1 : UInt8) else 0) :: (encUnits wide us ++ rgce))))) := by
+      simp [le16]
+    rw [this]; exact Biff.u16_le16 _ h3 _
+  have hd14 : (encodeLbl us wide itab rgce).drop 14 = (if wide then (1 : UInt8) else 0) :: (encUnits wide us ++ rgce) := by
+    rw [hshape]; simp [le16]
+  have hdr : (encodeLbl us wide itab rgce).drop ((encodeLbl us wide itab rgce).length - rgce.length) = rgce := by
+    have : (encodeLbl us wide itab rgce).length - rgce.length = 14 + (1 + (encUnits wide us).length) := by rw [hlen]; omega
+    rw [this, ← List.drop_drop, hd14]
+    have h1 : (1 + (encUnits wide us).length) = ((if wide then (1 : UInt8) else 0) :: encUnits wide us).length := by simp; omega
+    rw [← List.cons_append, h1, List.drop_left' rfl]
+  unfold parseLblWith
+  have hl6 : ¬ ((encodeLbl us wide itab rgce).length < 6) := by rw [hlen]; omega
+  have hl14 : ¬ ((encodeLbl us wide itab rgce).length < 14) := by rw [hlen]; omega
+  have hlc : ¬ ((encodeLbl us wide itab rgce).length < rgce.length) := by rw [hlen]; omega
+  simp only [hl6, hl14, if_false, hb3, hcce, hd14, readNoCch_enc us wide rgce h2, hlc, hdr]
+  unfold pdValue
+  cases hp : pd rgce with
+  | ok r => rfl
+  | err e => simp [hp, Res.isOk] at h4
+  | panic e => simp [hp, Res.isOk] at h4
+  | outOfFuel => simp [hp, Res.isOk] at h4
+
+theorem i16_le16 (n : Nat) (h : n < 65536) (rest : Bytes) : i16 (le16 n ++ rest) = asI16 n := by
+  unfold i16 asI16
+  rw [Biff.u16_le16 n h]
+
+theorem xtiLoop_enc : ∀ (x : List (Nat × Nat × Nat)), (∀ e ∈ x, e.1 < 65536 ∧ e.2.1 < 65536 ∧ e.2.2 < 65536) → ∀ (n : Nat), x.length ≤ n →
+    xtiLoop n (x.flatMap xtiBytes) = .ok (x.map (fun e => asI16 e.2.1)) := by
+  intro x
+  induction x with
+  | nil => intro _ n _; cases n <;> simp [xtiLoop]
+  | cons e es ih =>
+    intro hall n hn
+    obtain ⟨m, rfl⟩ : ∃ m, n = m + 1 := ⟨n - 1, by simp at hn; omega⟩
+    obtain ⟨_, h2, _⟩ := hall e (by simp)
+    have ih' := ih (fun y hy => hall y (by simp [hy])) m (by simp at hn; omega)
+    have hshape : (e :: es).flatMap xtiBytes = le16 e.1 ++ (le16 e.2.1 ++ (le16 e.2.2 ++ es.flatMap xtiBytes)) := by
+      simp [List.flatMap_cons, xtiBytes, List.append_assoc]
+    rw [hshape, xtiLoop]
+    have hne : (le16 e.1 ++ (le16 e.2.1 ++ (le16 e.2.2 ++ es.flatMap xtiBytes))).isEmpty = false := by simp [le16]
+    have hl6 : ¬ ((le16 e.1 ++ (le16 e.2.1 ++ (le16 e.2.2 ++ es.flatMap xtiBytes))).length < 6) := by simp [le16]
+    have hd6 : (le16 e.1 ++ (le16 e.2.1 ++ (le16 e.2.2 ++ es.flatMap xtiBytes))).drop 6 = es.flatMap xtiBytes := by simp [le16]
+    have hd2 : (le16 e.1 ++ (le16 e.2.1 ++ (le16 e.2.2 ++ es.flatMap xtiBytes))).drop 2 = le16 e.2.1 ++ (le16 e.2.2 ++ es.flatMap xtiBytes) := by
+      simp [le16]
+    simp only [hne, hl6, if_false, hd6, ih', hd2, i16_le16 _ h2, Bool.false_eq_true, List.map_cons]
+
+theorem parseExternSheet_enc (x : List (Nat × Nat × Nat)) (h1 : x.length < 65536)
+    (h2 : ∀ e ∈ x, e.1 < 65536 ∧ e.2.1 < 65536 ∧ e.2.2 < 65536) :
+    parseExternSheet (externData x) = .ok (x.map (fun e => asI16 e.2.1)) := by
+  unfold parseExternSheet externData
+  have hl : ¬ ((le16 x.length ++ x.flatMap xtiBytes).length < 2) := by simp [le16]
+  have hd : (le16 x.length ++ x.flatMap xtiBytes).drop 2 = x.flatMap xtiBytes := by simp [le16]
+  simp only [hl, if_false, Biff.u16_le16 _ h1, hd]
+  exact xtiLoop_enc x h2 x.length (Nat.le_refl _)
+
+abbrev NR := readUnicodeStringNoCch
+
+theorem step_sheet (pd : Bytes → Res (Option Nat × Text)) (st : XlsSt) (hb : st.biff8 = true)
     (s : XlsSheet) (hs : s.ok) :
-    xlsStep nr pd st ⟨0x0085, s.payload, []⟩ = .ok (some (applyRec st (.sheet s))) := by
+    xlsStep NR pd st ⟨0x0085, s.payload, []⟩ = .ok (some (applyRec pd st (.sheet s))) := by
   obtain ⟨h1, _, h3, h4, h5⟩ := hs
   have hr := parseSheetMetadata_encode s.offset h1 s.vis s.reserved s.kind s.dt (sheet_kind_lookup s h3) s.units h4 s.wide h5
   simp [xlsStep, XlsSheet.payload, hb, hr, liftUnit, applyRec, XlsSheet.decoded]
 
-theorem step_date (nr : Bytes → Nat → Res Text) (pd : Bytes → Res (Option Nat × Text)) (st : XlsSt) (v : Nat) (hv : v < 65536) :
-    xlsStep nr pd st ⟨0x0022, le16 v, []⟩ = .ok (some (applyRec st (.date v))) := by
+theorem step_date (pd : Bytes → Res (Option Nat × Text)) (st : XlsSt) (v : Nat) (hv : v < 65536) :
+    xlsStep NR pd st ⟨0x0022, le16 v, []⟩ = .ok (some (applyRec pd st (.date v))) := by
   have hu : Biff.u16 (le16 v) = v := by
     have := Biff.u16_le16 v hv []
     simpa using this
   simp [xlsStep, hu, applyRec]
 
-theorem step_neutral (nr : Bytes → Nat → Res Text) (pd : Bytes → Res (Option Nat × Text)) (st : XlsSt) (t : Nat) (d : Bytes)
+theorem step_neutral (pd : Bytes → Res (Option Nat × Text)) (st : XlsSt) (t : Nat) (d : Bytes)
     (ht : t ∉ interpretedIds) :
-    xlsStep nr pd st ⟨t, d, []⟩ = .ok (some st) := by
+    xlsStep NR pd st ⟨t, d, []⟩ = .ok (some st) := by
   simp only [interpretedIds, List.mem_cons, List.not_mem_nil, or_false, not_or] at ht
   obtain ⟨h1, h2, h3, h4, h5, h6, h7, h8, h9, h10, h11, _⟩ := ht
   simp [xlsStep, h1, h2, h3, h4, h5, h6, h7, h8, h9, h10, h11]
+
+theorem step_lbl (pd : Bytes → Res (Option Nat × Text)) (st : XlsSt) (us : List Nat) (wide : Bool) (itab : Nat) (rgce : Bytes)
+    (h1 : us.length < 256) (h2 : ∀ u ∈ us, u < (if wide then 65536 else 256)) (h3 : rgce.length < 65536)
+    (h4 : (pd rgce).isOk = true) :
+    xlsStep NR pd st ⟨0x0018, encodeLbl us wide itab rgce, []⟩ = .ok (some (applyRec pd st (.lbl us wide itab rgce))) := by
+  simp [xlsStep, parseLbl_enc pd us wide itab rgce h1 h2 h3 h4, liftUnit, applyRec]
+
+theorem step_extern (pd : Bytes → Res (Option Nat × Text)) (st : XlsSt) (x : List (Nat × Nat × Nat)) (h1 : x.length < 65536)
+    (h2 : ∀ e ∈ x, e.1 < 65536 ∧ e.2.1 < 65536 ∧ e.2.2 < 65536) :
+    xlsStep NR pd st ⟨0x0017, externData x, []⟩ = .ok (some (applyRec pd st (.extern x))) := by
+  simp [xlsStep, parseExternSheet_enc x h1 h2, liftUnit, applyRec]
 
 /-- framed record of a `GRec`: type, payload -/
 def grecTyp : GRec → Nat
   | .sheet _ => 0x0085
   | .date _ => 0x0022
   | .neutral t _ => t
+  | .lbl _ _ _ _ => 0x0018
+  | .extern _ => 0x0017
 
 def grecData : GRec → Bytes
   | .sheet s => s.payload
   | .date v => le16 v
   | .neutral _ d => d
+  | .lbl us w it rg => encodeLbl us w it rg
+  | .extern x => externData x
 
 theorem grec_bytes (r : GRec) : r.bytes = record (grecTyp r) (grecData r) := by
   cases r <;> rfl
 
-theorem grec_typ_ok (r : GRec) (h : r.ok) : grecTyp r < 65536 ∧ grecTyp r ≠ 0x3C ∧ (grecData r).length < 65536 := by
+theorem grec_typ_ok (pd : Bytes → Res (Option Nat × Text)) (r : GRec) (h : r.ok pd) :
+    grecTyp r < 65536 ∧ grecTyp r ≠ 0x3C ∧ (grecData r).length < 65536 := by
   cases r with
   | sheet s => exact ⟨by simp [grecTyp], by simp [grecTyp], sheet_payload_length s h.2.2.2.1⟩
   | date v => exact ⟨by simp [grecTyp], by simp [grecTyp], by simp [grecData]⟩
@@ -201,75 +302,85 @@ theorem grec_typ_ok (r : GRec) (h : r.ok) : grecTyp r < 65536 ∧ grecTyp r ≠ 
     apply h2
     have : t = 0x3C := h
     rw [this]; decide
+  | lbl us w it rg => exact ⟨by simp [grecTyp], by simp [grecTyp], h.2.2.2.2.1⟩
+  | extern x => exact ⟨by simp [grecTyp], by simp [grecTyp], h.2.2⟩
 
-theorem step_grec (nr : Bytes → Nat → Res Text) (pd : Bytes → Res (Option Nat × Text)) (st : XlsSt) (hb : st.biff8 = true)
-    (r : GRec) (h : r.ok) :
-    xlsStep nr pd st ⟨grecTyp r, grecData r, []⟩ = .ok (some (applyRec st r)) ∧ (applyRec st r).biff8 = true := by
+theorem step_grec (pd : Bytes → Res (Option Nat × Text)) (st : XlsSt) (hb : st.biff8 = true)
+    (r : GRec) (h : r.ok pd) :
+    xlsStep NR pd st ⟨grecTyp r, grecData r, []⟩ = .ok (some (applyRec pd st r)) ∧ (applyRec pd st r).biff8 = true := by
   cases r with
-  | sheet s => exact ⟨step_sheet nr pd st hb s h, by simp [applyRec, hb]⟩
-  | date v => exact ⟨step_date nr pd st v h, by simp only [applyRec]; split <;> simp [hb]⟩
-  | neutral t d => exact ⟨step_neutral nr pd st t d h.2.1, by simp [applyRec, hb]⟩
+  | sheet s => exact ⟨step_sheet pd st hb s h, by simp [applyRec, hb]⟩
+  | date v => exact ⟨step_date pd st v h, by simp only [applyRec]; split <;> simp [hb]⟩
+  | neutral t d => exact ⟨step_neutral pd st t d h.2.1, by simp [applyRec, hb]⟩
+  | lbl us w it rg =>
+    obtain ⟨h1, h2, _, h4, _, h6⟩ := h
+    exact ⟨step_lbl pd st us w it rg h1 h2 h4 h6, by simp [applyRec, hb]⟩
+  | extern x => exact ⟨step_extern pd st x h.1 h.2.1, by simp [applyRec, hb]⟩
 
-theorem notCont_recs (recs : List GRec) (hall : ∀ r ∈ recs, r.ok) (rest : Bytes) (hrest : Biff.notCont rest) :
+theorem notCont_recs (pd : Bytes → Res (Option Nat × Text)) (recs : List GRec) (hall : ∀ r ∈ recs, r.ok pd) (rest : Bytes)
+    (hrest : Biff.notCont rest) :
     Biff.notCont (recs.flatMap GRec.bytes ++ rest) := by
   cases recs with
   | nil => simpa using hrest
   | cons r rs =>
-    obtain ⟨h1, h2, _⟩ := grec_typ_ok r (hall r (by simp))
+    obtain ⟨h1, h2, _⟩ := grec_typ_ok pd r (hall r (by simp))
     simp only [List.flatMap_cons, List.append_assoc, grec_bytes r]
     exact notCont_record _ _ _ h1 h2
 
-theorem globals_recs (nr : Bytes → Nat → Res Text) (pd : Bytes → Res (Option Nat × Text)) :
-    ∀ (recs : List GRec), (∀ r ∈ recs, r.ok) → ∀ (fuel : Nat) (rest : Bytes) (st : XlsSt), Biff.notCont rest → st.biff8 = true →
-      xlsGlobals nr pd (fuel + recs.length) (recs.flatMap GRec.bytes ++ rest) st =
-        xlsGlobals nr pd fuel rest (recs.foldl applyRec st) := by
+theorem globals_recs (pd : Bytes → Res (Option Nat × Text)) :
+    ∀ (recs : List GRec), (∀ r ∈ recs, r.ok pd) → ∀ (fuel : Nat) (rest : Bytes) (st : XlsSt), Biff.notCont rest → st.biff8 = true →
+      xlsGlobals NR pd (fuel + recs.length) (recs.flatMap GRec.bytes ++ rest) st =
+        xlsGlobals NR pd fuel rest (recs.foldl (applyRec pd) st) := by
   intro recs
   induction recs with
   | nil => intro _ fuel rest st _ _; simp
   | cons r rs ih =>
     intro hall fuel rest st hrest hb
     have hr := hall r (by simp)
-    have hrs : ∀ x ∈ rs, x.ok := fun x hx => hall x (by simp [hx])
-    obtain ⟨h1, _, h3⟩ := grec_typ_ok r hr
-    obtain ⟨hstep, hb'⟩ := step_grec nr pd st hb r hr
+    have hrs : ∀ x ∈ rs, x.ok pd := fun x hx => hall x (by simp [hx])
+    obtain ⟨h1, _, h3⟩ := grec_typ_ok pd r hr
+    obtain ⟨hstep, hb'⟩ := step_grec pd st hb r hr
     have hfuel : fuel + (r :: rs).length = (fuel + rs.length) + 1 := by simp; omega
     rw [hfuel, xlsGlobals]
     simp only [List.flatMap_cons, List.append_assoc, grec_bytes r]
-    rw [nextRecord_record _ _ _ h1 h3 (notCont_recs rs hrs rest hrest)]
+    rw [nextRecord_record _ _ _ h1 h3 (notCont_recs pd rs hrs rest hrest)]
     simp only [hstep]
     rw [ih hrs fuel rest _ hrest hb']
     rfl
 
-theorem foldl_applyRec (recs : List GRec) : ∀ (st : XlsSt),
-    recs.foldl applyRec st =
-      { st with sheets := st.sheets ++ (declaredSheets recs).map XlsSheet.decoded, is1904 := st.is1904 || declared1904 recs } := by
+theorem foldl_applyRec (pd : Bytes → Res (Option Nat × Text)) (recs : List GRec) : ∀ (st : XlsSt),
+    recs.foldl (applyRec pd) st =
+      { st with sheets := st.sheets ++ (declaredSheets recs).map XlsSheet.decoded, is1904 := st.is1904 || declared1904 recs,
+                names := st.names ++ declaredNames pd recs, xtis := st.xtis ++ declaredXtis recs } := by
   induction recs with
-  | nil => intro st; simp [declaredSheets, declared1904]
+  | nil => intro st; simp [declaredSheets, declared1904, declaredNames, declaredXtis]
   | cons r rs ih =>
     intro st
     rw [List.foldl_cons, ih]
     cases r with
-    | sheet s => simp [applyRec, declaredSheets, declared1904, List.append_assoc]
+    | sheet s => simp [applyRec, declaredSheets, declared1904, declaredNames, declaredXtis, List.append_assoc]
     | date v =>
       by_cases hv : v = 1
-      · simp [applyRec, declaredSheets, declared1904, hv]
+      · simp [applyRec, declaredSheets, declared1904, declaredNames, declaredXtis, hv]
       · have : (v == 1) = false := by simp [hv]
-        simp [applyRec, declaredSheets, declared1904, hv, this]
-    | neutral t d => simp [applyRec, declaredSheets, declared1904]
+        simp [applyRec, declaredSheets, declared1904, declaredNames, declaredXtis, hv, this]
+    | neutral t d => simp [applyRec, declaredSheets, declared1904, declaredNames, declaredXtis]
+    | lbl us w it rg => simp [applyRec, declaredSheets, declared1904, declaredNames, declaredXtis, List.append_assoc]
+    | extern x => simp [applyRec, declaredSheets, declared1904, declaredNames, declaredXtis, List.append_assoc]
 
-theorem xlsGlobals_encode (nr : Bytes → Nat → Res Text) (pd : Bytes → Res (Option Nat × Text))
-    (recs : List GRec) (hall : ∀ r ∈ recs, r.ok) (tail : Bytes) (htail : Biff.notCont tail) (fuel : Nat) :
-    xlsGlobals nr pd (fuel + recs.length + 2) (encodeGlobals recs tail) {} = .ok (recs.foldl applyRec {}) := by
+theorem xlsGlobals_encode (pd : Bytes → Res (Option Nat × Text))
+    (recs : List GRec) (hall : ∀ r ∈ recs, r.ok pd) (tail : Bytes) (htail : Biff.notCont tail) (fuel : Nat) :
+    xlsGlobals NR pd (fuel + recs.length + 2) (encodeGlobals recs tail) {} = .ok (recs.foldl (applyRec pd) {}) := by
   unfold encodeGlobals
   have hEofNC : Biff.notCont (record 0x000A [] ++ tail) := notCont_record _ _ _ (by decide) (by decide)
   have hfuel : fuel + recs.length + 2 = (fuel + 1 + recs.length) + 1 := by omega
   rw [hfuel, xlsGlobals]
-  rw [nextRecord_record 0x0809 (bofData 5) _ (by decide) (by decide) (notCont_recs recs hall _ hEofNC)]
-  have hbof : xlsStep nr pd {} ⟨0x0809, bofData 5, []⟩ = .ok (some {}) := by
+  rw [nextRecord_record 0x0809 (bofData 5) _ (by decide) (by decide) (notCont_recs pd recs hall _ hEofNC)]
+  have hbof : xlsStep NR pd {} ⟨0x0809, bofData 5, []⟩ = .ok (some {}) := by
     have : parseBof (bofData 5) = .ok true := by decide
     simp [xlsStep, this, liftUnit]
   simp only [hbof]
-  rw [globals_recs nr pd recs hall (fuel + 1) _ _ hEofNC rfl]
+  rw [globals_recs pd recs hall (fuel + 1) _ _ hEofNC rfl]
   rw [xlsGlobals, nextRecord_record 0x000A [] tail (by decide) (by decide) htail]
   simp [xlsStep]
 
@@ -302,7 +413,6 @@ theorem encodeGlobals_fuel (recs : List GRec) (tail : Bytes) :
     simp [encodeGlobals, record, Biff.frameRec, Biff.recHdr, Biff.frameConts, bofData]
     omega
   omega
-
 
 /-! ## xlsb `read_workbook` -/
 
